@@ -13,6 +13,24 @@ CHECKS = {
          "DESIGN.md §4 C12"),
 }
 
+CHECKS.update({
+ "C01": ("exploration",
+         "deterministic simulation: 3-4 real replicas fed one seeded block history (all op families), differing in node-local config, restarts, stalls/catch-up, late join from genesis and interleaved non-consensus traffic; comparator on every DeliverTx / EndBlock / Commit",
+         "Seeded search over mixed block histories executed on several independently constructed app.Haqq replicas that differ in everything the statement says must not matter (appOpts incl. tracer/pruning/min-gas-prices/max-tx-gas-wanted/inv-check-period, crash-restart points, lagging and late-joining nodes, CheckTx/Simulate/query/eth_call/export traffic, Go map order). Every tx result (code, codespace, data, gas wanted/used), validator update, consensus-param update and app hash is compared after each ABCI call; on divergence the differing stores are named.",
+         "Go map iteration order cannot be seeded (divergence from it shows with probability 1-(1/2)^(R-1) per occurrence); wall-clock seam (testing/synctest) not built at this commit; CometBFT stubbed.",
+         "DESIGN.md §4 C01"),
+ "C15": ("exploration",
+         "deterministic simulation: seeded mixed histories (staking, slashing evidence/downtime, distribution, gov, authz, vesting, liquid vesting, DAO, ERC20, EVM) with clock jumps and byzantine-proposer txs; every crisis invariant route evaluated on the committed state after every block",
+         "After every block of every sampled history all invariant routes registered with the crisis keeper (bank, staking, distribution, gov) are evaluated on the committed state; a broken route is the violation, carrying the invariant's own message.",
+         "Trusts the SDK invariants themselves as the statement of the accounting rules; sampling only.",
+         "DESIGN.md §4 C15"),
+ "C20": ("fault_enumeration",
+         "deterministic simulation with crash injection: replica E is crashed and re-opened from its simulated disk at EVERY block boundary of each sampled history, replica M at seeded random points incl. mid-block (with full redelivery), replica K never stops; Info()/query-set/tx-result/app-hash comparison + no-DB-write-outside-Commit counter",
+         "Crash-point enumeration inside each sampled history (every boundary) x seeded exploration of histories. After each restart the node's reported height/app hash, a fixed set of 18 gRPC queries plus per-account queries, and all following tx results, validator updates and app hashes are compared with the never-stopped replica; the simulated disk counts writes per ABCI phase to show nothing becomes durable outside Commit.",
+         "Torn writes inside rootmulti.Commit and disk errors are not injected (SDK/IAVL code outside the repo; the property quantifies over block boundaries); upgrade-plan boundaries not exercised at this commit.",
+         "DESIGN.md §4 C20"),
+})
+
 NOT_YET = {}  # id -> reason (filled below)
 NA = {
  "C18": "pure function of one input (wrap -> encode -> decode -> unwrap of one Ethereum tx): no schedule, clock, fault, crash or second party can change its result, so deterministic simulation with fault injection has nothing to decide; see DESIGN.md §4 C18",
